@@ -76,6 +76,7 @@ ONNX_NAME = {
     "LabelEncoder": "LabelEncoder", "Scaler": "Scaler", "Binarizer": "Binarizer",
     "BitAnd": "BitwiseAnd", "BitOr": "BitwiseOr", "BitXor": "BitwiseXor", "BitNot": "BitwiseNot",
     "Gelu": "Gelu", "DFT": "DFT",
+    "ConstScalar": "Constant", "Div": "Div", "LeakyRelu": "LeakyRelu",
 }
 ML_OPS = ("LabelEncoder", "Scaler", "Binarizer")  # domain ai.onnx.ml
 MIN_OPSET = {"BitAnd": 18, "BitOr": 18, "BitXor": 18, "BitNot": 18, "Gelu": 20, "DFT": 20}
@@ -637,24 +638,19 @@ def reachable(prog) -> set[int]:
 
 
 def depth_of(prog) -> int:
+    """Nesting depth of bodies below the requested outputs (iterative: ids are topological)."""
     nodes = prog["nodes"]
-    memo: dict[int, int] = {}
-
-    def d(k):
-        if k in memo:
-            return memo[k]
-        n = nodes[k]
+    d = [0] * len(nodes)
+    for k, n in enumerate(nodes):
         best = 0
         for r in n["ins"]:
             if r is not None:
-                best = max(best, d(r[0]))
-        for s in n["subs"]:
-            for r in s["res"]:
-                best = max(best, 1 + d(r[0]))
-        memo[k] = best
-        return best
-
-    return max((d(r[0]) for r in prog["outputs"]), default=0)
+                best = max(best, d[r[0]])
+        for s_ in n["subs"]:
+            for r in s_["res"]:
+                best = max(best, 1 + d[r[0]])
+        d[k] = best
+    return max((d[r[0]] for r in prog["outputs"]), default=0)
 
 
 def check_wellformed(prog) -> list[str]:
@@ -699,6 +695,19 @@ def typecheck(prog) -> list[str]:
                 cnt = int(np.prod(out[0][1])) if out[0][1] else 1
                 ok = not ins and concrete(out[0]) and not out[0][2] and len(n["attrs"]["value"]) == cnt
                 ok = ok and n["attrs"].get("layout", "C") in LAYOUTS
+            elif op == "ConstScalar":
+                f_, v_ = n["attrs"]["form"], n["attrs"]["value"]
+                want = {"float": ty("f32", []), "int": ty("i64", []),
+                        "floats": ty("f32", [len(v_)] if isinstance(v_, list) else [0]),
+                        "ints": ty("i64", [len(v_)] if isinstance(v_, list) else [0]),
+                        "np": ty(n["attrs"].get("dtype", "f32"), [])}[f_]
+                ok = not ins and same_ty(out[0], want)
+            elif op == "Div":
+                a, b = T(ins[0]), T(ins[1])
+                sh = bshape(a, b)
+                ok = a[0] == b[0] == "f32" and sh is not None and same_ty(out[0], ty("f32", sh[0], sh[1]))
+            elif op == "LeakyRelu":
+                ok = T(ins[0])[0] == "f32" and same_ty(out[0], T(ins[0]))
             elif op == "LabelEncoder":
                 x = T(ins[0])
                 a_ = n["attrs"]
@@ -847,8 +856,11 @@ def eval_numpy(prog, binding: dict[int, np.ndarray]):
     nodes = prog["nodes"]
     dep = formal_deps(prog)
     stats = {"wild": False, "loop_iters": 0, "evals": 0}
+    special = bool(prog.get("special"))
 
     def note(a):
+        if special:
+            return a
         if a.dtype == np.float32:
             if a.size and (not np.all(np.isfinite(a)) or np.max(np.abs(a)) > MAG_FLOAT):
                 stats["wild"] = True
@@ -856,6 +868,13 @@ def eval_numpy(prog, binding: dict[int, np.ndarray]):
             if a.size and np.max(np.abs(a)) > MAG_INT:
                 stats["wild"] = True
         return a
+
+    def bound_of(lv) -> frozenset:
+        out: set = set()
+        while lv is not None:
+            out |= lv.formals
+            lv = lv.parent
+        return frozenset(out)
 
     def ev(k: int, lv: _Level) -> list:
         L = lv
@@ -882,6 +901,15 @@ def eval_numpy(prog, binding: dict[int, np.ndarray]):
                 out = [np.multiply(inp(0), inp(1))]
             elif op == "Sub":
                 out = [np.subtract(inp(0), inp(1))]
+            elif op == "ConstScalar":
+                f_, v_ = n["attrs"]["form"], n["attrs"]["value"]
+                dt_ = {"float": np.float32, "floats": np.float32, "int": np.int64, "ints": np.int64}.get(f_) or DT[n["attrs"]["dtype"]]
+                out = [np.array(v_, dtype=dt_)]
+            elif op == "Div":
+                out = [np.divide(inp(0), inp(1)).astype(np.float32)]
+            elif op == "LeakyRelu":
+                x = inp(0)
+                out = [np.where(x < 0, np.float32(n["attrs"]["alpha"]) * x, x).astype(np.float32)]
             elif op == "LabelEncoder":
                 a_ = n["attrs"]
                 table = dict(zip(a_["keys"], a_["values"]))
@@ -976,6 +1004,7 @@ def eval_numpy(prog, binding: dict[int, np.ndarray]):
                     lv2 = _Level(frozenset(body["args"]), L)
                     for a, v in zip(body["args"], state + [np.asarray(z[t_]) for z in sin]):
                         lv2.vals[a] = [v]
+                    warm(lv2, bound_of(lv2))
                     res = [ev(r[0], lv2)[r[1]] for r in body["res"]]
                     state = res[:ns]
                     for s_, v in zip(acc, res[ns:]):
@@ -1001,6 +1030,7 @@ def eval_numpy(prog, binding: dict[int, np.ndarray]):
                     actual = [np.array(i, dtype=np.int64), np.array(cond, dtype=np.bool_)] + state
                     for a, v in zip(body["args"], actual):
                         lv2.vals[a] = [v]
+                    warm(lv2, bound_of(lv2))
                     res = [ev(r[0], lv2)[r[1]] for r in body["res"]]
                     cond = bool(np.asarray(res[0]).reshape(-1)[0])
                     state = res[1 : 1 + ns]
@@ -1023,9 +1053,23 @@ def eval_numpy(prog, binding: dict[int, np.ndarray]):
         L.vals[k] = out
         return out
 
+    needed = sorted(reachable(prog))
+    long_chain = len(needed) > 400
+
+    def warm(lv, bound: frozenset):
+        """Evaluate, in id order, the needed nodes that belong to level `lv` (depend on its formals and on
+        nothing unbound), so that `ev` never recurses along a long dependency chain."""
+        if not long_chain:
+            return
+        for k in needed:
+            if nodes[k]["op"] != "arg" and dep[k] <= bound and (not lv.formals or dep[k] & lv.formals) \
+                    and nodes[k]["op"] not in ("If",):
+                ev(k, lv)
+
     root = _Level(frozenset(), None)
     for a, v in binding.items():
         root.vals[int(a)] = [np.asarray(v)]
+    warm(root, frozenset())
     outs = [ev(r[0], root)[r[1]] for r in prog["outputs"]]
     return outs, stats
 
@@ -1039,6 +1083,8 @@ def random_binding(prog, rng: random.Random) -> dict[int, np.ndarray]:
         cnt = int(np.prod(shape)) if shape else 1
         if n["attrs"].get("range") == "trip":
             vals = [rng.randint(0, 3) for _ in range(cnt)]
+        elif n["attrs"].get("range") == "special":
+            vals = [rng.choice([0.0, -0.0, 1.0, -1.5, 2.0, -3.0, 0.5]) for _ in range(cnt)]
         elif t[0] == "i64":
             vals = [rng.randint(-4, 4) for _ in range(cnt)]
         elif t[0] == "f32":
@@ -1091,6 +1137,43 @@ def layout_view(arr: np.ndarray, layout: str) -> np.ndarray:
     return v
 
 
+def const_scalar(op, attrs):
+    """A Constant written through its scalar / list attributes (or a numpy *scalar* as `value`)."""
+    f_, v_ = attrs["form"], attrs["value"]
+    if f_ == "float":
+        return op.constant(value_float=v_)
+    if f_ == "floats":
+        return op.constant(value_floats=list(v_))
+    if f_ == "int":
+        return op.constant(value_int=v_)
+    if f_ == "ints":
+        return op.constant(value_ints=list(v_))
+    return op.constant(value=DT[attrs["dtype"]](v_))
+
+
+def attribute_twin(node) -> Optional[dict]:
+    """A node with an attribute value that is `==`-equal to `node`'s but must serialise differently
+    (sign of a zero, element type of a numpy scalar) — constructed *before* the program by the
+    `twins` option of `realise`, never requested."""
+    a = dict(node["attrs"])
+    if node["op"] == "ConstScalar":
+        v = a["value"]
+        if a["form"] == "float" and v == 0:
+            a["value"] = -v
+        elif a["form"] == "floats" and any(z == 0 for z in v):
+            a["value"] = [-z if z == 0 else z for z in v]
+        elif a["form"] == "np" and float(v) == int(v) and abs(v) < 2 ** 20:
+            a["dtype"] = {"f32": "i64", "i64": "f32", "bool": "i64"}[a["dtype"]]
+            a["value"] = int(v) if a["dtype"] == "i64" else float(v)
+        else:
+            return None
+        return {"op": "ConstScalar", "attrs": a}
+    if node["op"] == "LeakyRelu" and a["alpha"] == 0:
+        a["alpha"] = -a["alpha"]
+        return {"op": "LeakyRelu", "attrs": a}
+    return None
+
+
 class Realised:
     """One Python realisation of an abstract program with the real spox constructors."""
 
@@ -1106,7 +1189,7 @@ class Realised:
         self.unobservable: Optional[str] = None  # set when a spox internal could not be read
 
 
-def realise(prog, rng: random.Random, style: str = "lazy") -> Realised:
+def realise(prog, rng: random.Random, style: str = "lazy", twins: bool = False) -> Realised:
     """Construct `prog` with spox.  `style` controls *how the program is written in Python*:
 
     lazy            every value is created on first demand (inside whichever callback needs it first,
@@ -1115,6 +1198,8 @@ def realise(prog, rng: random.Random, style: str = "lazy") -> Realised:
                     main program (bodies only close over it); dead values are constructed too
     eager-shuffled  like eager, in a random dataflow-compatible order
     mixed           a random subset is created up front, the rest on demand
+    twins=True      first constructs, for every scalar-attribute node, an unrequested twin whose attribute
+                    value is ==-equal but serialises differently (-0.0 / 0.0, np.int64(2) / np.float32(2))
     *-extras        additionally constructs unrequested operators on existing values at random points
                     (in the main program and inside callbacks)
     """
@@ -1223,6 +1308,12 @@ def realise(prog, rng: random.Random, style: str = "lazy") -> Realised:
             outs = [op.mul(a[0], a[1])]
         elif o == "Sub":
             outs = [op.sub(a[0], a[1])]
+        elif o == "ConstScalar":
+            outs = [const_scalar(op, n["attrs"])]
+        elif o == "Div":
+            outs = [op.div(a[0], a[1])]
+        elif o == "LeakyRelu":
+            outs = [op.leaky_relu(a[0], alpha=n["attrs"]["alpha"])]
         elif o == "LabelEncoder":
             outs = [ml.label_encoder(a[0], keys_int64s=n["attrs"]["keys"], values_int64s=n["attrs"]["values"],
                                      default_int64=n["attrs"]["default"])]
@@ -1288,6 +1379,18 @@ def realise(prog, rng: random.Random, style: str = "lazy") -> Realised:
         register(k, outs)
         maybe_extra()
 
+    if twins:  # history: ==-equal but different attribute values, constructed first and never requested
+        from spox import Tensor as _T, argument as _arg
+
+        for n_ in prog["nodes"]:
+            tw = attribute_twin(n_)
+            if tw is None:
+                continue
+            R.extras += 1
+            if tw["op"] == "ConstScalar":
+                const_scalar(op, tw["attrs"])
+            else:
+                op.leaky_relu(_arg(_T(np.float32, (N,))), alpha=tw["attrs"]["alpha"])
     upfront: set[int] = set()
     if base in ("eager", "eager-shuffled"):
         upfront = set(range(len(nodes)))
@@ -1832,6 +1935,81 @@ def _skeleton(uses: set, two: bool) -> dict:
     return {"nodes": nodes, "outputs": [list(out)], "opset": 17}
 
 
+def same_bits(got, want) -> Optional[str]:
+    """Bit-level comparison for programs with special float values: same dtype and shape, NaN exactly
+    where NaN is expected, everything else equal *including the sign of zeros* (infinities compare
+    by value)."""
+    got, want = np.asarray(got), np.asarray(want)
+    if got.dtype != want.dtype:
+        return f"dtype {got.dtype} != {want.dtype}"
+    if got.shape != want.shape:
+        return f"shape {got.shape} != {want.shape}"
+    if want.dtype == np.float32:
+        ng, nw = np.isnan(got), np.isnan(want)
+        if not np.array_equal(ng, nw):
+            return f"NaN pattern {got.tolist()} != {want.tolist()}"
+        g, w = np.where(ng, 0, got), np.where(nw, 0, want)
+        if not np.array_equal(g, w) or not np.array_equal(np.signbit(g), np.signbit(w)):
+            return f"values {got.tolist()} != {want.tolist()} (signs of zeros count)"
+    elif not np.array_equal(got, want):
+        return f"values {got.tolist()} != {want.tolist()}"
+    return None
+
+
+SPECIAL_FLOATS = [0.0, -0.0, 1.0, -1.0, 2.0, 0.5, float("inf"), float("-inf"), float("nan"), 3.0, -2.0, 1e-45, -1e-45]
+
+
+def gen_attr_program(rng: random.Random) -> dict:
+    """A small program around *scalar-attribute* operators with unusual values (±0.0, ±inf, NaN, numpy
+    scalars of different element types with equal value): Constants written through `value_float`,
+    `value_floats`, `value_int(s)` or a numpy scalar, LeakyRelu alphas; the values are made observable
+    bit-exactly (x / c, c * x, LeakyRelu) and partly sit inside If bodies.  `prog["special"]` tells the
+    oracle to compare with `same_bits` and not to skip non-finite values."""
+    nodes: list[dict] = []
+
+    def add(op, ins=(), subs=(), attrs=None, tys=()):
+        nodes.append({"op": op, "ins": [list(r) if r else None for r in ins], "subs": list(subs), "attrs": dict(attrs or {}), "ty": [list(t) for t in tys]})
+        return len(nodes) - 1
+
+    V = ty("f32", [N])
+    x = add("arg", attrs={"role": "main", "range": "special"}, tys=[V])
+    c = add("arg", attrs={"role": "main"}, tys=[ty("bool", [])])
+    vals: list[tuple[int, int]] = []
+
+    def one_value():
+        kind = rng.choice(["float", "float", "floats", "np", "leaky", "leaky"])
+        if kind == "float":
+            k = add("ConstScalar", attrs={"form": "float", "value": rng.choice(SPECIAL_FLOATS)}, tys=[ty("f32", [])])
+            return (add(rng.choice(["Div", "Mul", "Div"]), [(x, 0), (k, 0)], tys=[V]), 0)
+        if kind == "floats":
+            k = add("ConstScalar", attrs={"form": "floats", "value": [rng.choice(SPECIAL_FLOATS[:6]) for _ in range(N)]}, tys=[V])
+            return (add(rng.choice(["Div", "Mul"]), [(x, 0), (k, 0)], tys=[V]), 0)
+        if kind == "np":
+            v = rng.choice([0.0, 1.0, 2.0, -1.0])
+            k = add("ConstScalar", attrs={"form": "np", "dtype": "f32", "value": v}, tys=[ty("f32", [])])
+            return (add("Mul", [(x, 0), (k, 0)], tys=[V]), 0)
+        return (add("LeakyRelu", [(x, 0)], attrs={"alpha": rng.choice([0.0, -0.0, 0.5, -1.0, 2.0])}, tys=[V]), 0)
+
+    for _ in range(rng.randint(1, 3)):
+        vals.append(one_value())
+    if rng.random() < 0.6:  # one more pair of values, each created inside a branch of an If
+        t = one_value()
+        e = one_value()
+        vals.append((add("If", [(c, 0)], [{"args": [], "res": [list(t)]}, {"args": [], "res": [list(e)]}], tys=[V]), 0))
+    if rng.random() < 0.5:  # integer attribute forms, for the element-type half
+        form = rng.choice(["int", "ints", "np"])
+        if form == "int":
+            k = add("ConstScalar", attrs={"form": "int", "value": rng.choice([0, 1, -1, 2])}, tys=[ty("i64", [])])
+        elif form == "ints":
+            k = add("ConstScalar", attrs={"form": "ints", "value": [rng.choice([0, 1, 2]) for _ in range(N)]}, tys=[ty("i64", [N])])
+        else:
+            k = add("ConstScalar", attrs={"form": "np", "dtype": rng.choice(["i64", "bool"]), "value": rng.choice([0, 1])}, tys=[ty("i64", [])])
+            nodes[k]["ty"] = [ty(nodes[k]["attrs"]["dtype"], [])]
+        vals.append((k, 0))
+    outs = vals[-3:]
+    return {"nodes": nodes, "outputs": [list(o) for o in outs], "opset": rng.choice([17, 18, 19, 20, 21]), "special": True}
+
+
 # ------------------------------------------------------------------------------------ shrinking
 def prune(prog, bindings: Optional[list[dict]] = None):
     """Drop everything the requested outputs do not depend on and renumber.  Returns
@@ -1854,7 +2032,8 @@ def prune(prog, bindings: Optional[list[dict]] = None):
                 "ty": [list(t) for t in n["ty"]],
             }
         )
-    out = {"nodes": nodes, "outputs": [ref(r) for r in prog["outputs"]], "opset": prog.get("opset", 17)}
+    out = {k_: v_ for k_, v_ in prog.items() if k_ not in ("nodes", "outputs")}  # opset, special, …
+    out.update({"nodes": nodes, "outputs": [ref(r) for r in prog["outputs"]], "opset": prog.get("opset", 17)})
     nb = None
     if bindings is not None:
         nb = [{idmap[a]: v for a, v in b.items() if a in idmap} for b in bindings]
@@ -2180,3 +2359,61 @@ def _skeleton4(kind: str, uses: set) -> dict:
     negm = (add("Neg", [m], tys=[T]), 0)
     d_out = iff(d, use(6, m), use(7, negm))
     return {"nodes": nodes, "outputs": [list(d_out)], "opset": opset}
+
+
+
+def deep_programs(rng: random.Random, count: int = 1) -> Iterator[tuple[dict, str]]:
+    """Programs with a very long dependency path (the theorems are depth-unbounded; the builder's
+    traversals are iterative and must stay so): per round (i) `reduce(add, …)`: a chain of 1 200–3 000 Adds,
+    (ii) an unrolled two-term recurrence a, b = a + b, a - b, (iii) a chain of ≈ 1 100–1 500 operators inside a
+    Loop body closing over an outer value.  Cheap: Adds on 3-vectors.  Yields (prog, tag).  Use the
+    `eager` style (the realiser then creates nodes in id order without recursing)."""
+    V = ty("i64", [N])
+
+    def new():
+        nodes: list[dict] = []
+
+        def add(op, ins=(), subs=(), attrs=None, tys=()):
+            nodes.append({"op": op, "ins": [list(r) if r else None for r in ins], "subs": list(subs), "attrs": dict(attrs or {}), "ty": [list(t) for t in tys]})
+            return len(nodes) - 1
+
+        return nodes, add
+
+    for _ in range(count):
+        depth = rng.randint(1200, 3000)
+        nodes, add = new()
+        x = add("arg", attrs={"role": "main"}, tys=[V])
+        y = add("arg", attrs={"role": "main"}, tys=[V])
+        cur = x
+        for i in range(depth):
+            cur = add("Add" if i % 3 else "Sub", [(cur, 0), ((y if i % 2 else x), 0)], tys=[V])
+        yield {"nodes": nodes, "outputs": [[cur, 0]], "opset": 17}, f"chain{depth}"
+
+        depth = rng.randint(600, 1200)
+        nodes, add = new()
+        x = add("arg", attrs={"role": "main"}, tys=[V])
+        y = add("arg", attrs={"role": "main"}, tys=[V])
+        z = add("Constant", attrs={"value": [0, 0, 0], "uid": 1, "layout": "C"}, tys=[V])
+        a, b = x, y
+        for i in range(depth):  # values stay small: every other step is multiplied by zero and re-seeded
+            s_ = add("Add", [(a, 0), (b, 0)], tys=[V])
+            d_ = add("Sub", [(a, 0), (b, 0)], tys=[V])
+            if i % 8 == 7:
+                s_ = add("Add", [(add("Mul", [(s_, 0), (z, 0)], tys=[V]), 0), (x, 0)], tys=[V])
+                d_ = add("Add", [(add("Mul", [(d_, 0), (z, 0)], tys=[V]), 0), (y, 0)], tys=[V])
+            a, b = s_, d_
+        yield {"nodes": nodes, "outputs": [[a, 0], [b, 0]], "opset": 18}, f"recurrence{depth}"
+
+        depth = rng.randint(1100, 1500)
+        nodes, add = new()
+        x = add("arg", attrs={"role": "main"}, tys=[V])
+        n = add("arg", attrs={"role": "main", "range": "trip"}, tys=[ty("i64", [])])
+        k = add("Neg", [(x, 0)], tys=[V])  # outer value the body closes over
+        it = add("arg", attrs={"role": "formal"}, tys=[ty("i64", [], True)])
+        cn = add("arg", attrs={"role": "formal"}, tys=[ty("bool", [], True)])
+        acc = add("arg", attrs={"role": "formal"}, tys=[V])
+        cur = acc
+        for i in range(depth):
+            cur = add("Add" if i % 2 else "Sub", [(cur, 0), (k, 0)], tys=[V])
+        loop = add("Loop", [(n, 0), None, (x, 0)], [{"args": [it, cn, acc], "res": [[cn, 0], [cur, 0]]}], tys=[V])
+        yield {"nodes": nodes, "outputs": [[loop, 0]], "opset": 17}, f"loopbody{depth}"
